@@ -1,21 +1,21 @@
 ------------------------------ MODULE Trace_GenSrc ------------------------------
-(* Records [id, ref, ref2, obs]: ref = digest of emit_c_code() into a StringIO, ref2 = digest of
-   emit_c_code() to a path, obs = sequence of [status, digest] of the CLI runs of every
-   configuration.  Prints <<"VERDICT", k, clause, i>> for every bad observation i of record k
-   ("status": non-zero exit, "bytes": different bytes, "reference": the two in-process
+(* Records [id, ok, ref, ref2, obs]: ok = the in-process reference succeeded, ref = digest of
+   emit_c_code() into a StringIO, ref2 = digest of emit_c_code() to a path, obs = sequence of
+   [status, digest, wrote] of the CLI runs.  Prints <<"VERDICT", k, clause, i>> for every bad
+   observation i of record k (clauses of GenSrc!Verdict, or "reference" when the two in-process
    references differ) and finally <<"CHECKED", records, observations>>. *)
 EXTENDS Integers, Sequences, FiniteSets, Json, IOUtils, TLC
 VARIABLES k, n
 Recs == JsonDeserialize(IOEnv.TRACE_FILE)
-Bad(r) == {i \in DOMAIN r.obs : r.obs[i].status # 0 \/ r.obs[i].digest # r.ref}
-First(S) == CHOOSE i \in S : \A j \in S : i <= j
+Verdict(r, o) == IF r.ok THEN (IF o.status # 0 THEN "status" ELSE IF o.digest # r.ref THEN "bytes" ELSE "ok")
+                 ELSE (IF o.status = 0 THEN "accepted-what-the-reference-rejects"
+                       ELSE IF o.wrote THEN "wrote-output-on-failure" ELSE "ok")
+Bad(r) == {i \in DOMAIN r.obs : Verdict(r, r.obs[i]) # "ok"}
 TInit == k = 0 /\ n = 0
 TNext == \/ /\ k < Len(Recs)
             /\ LET r == Recs[k + 1] IN
-               /\ IF r.ref # r.ref2 THEN PrintT(<<"VERDICT", k + 1, "reference", 0>>)
-                  ELSE IF Bad(r) = {} THEN TRUE
-                  ELSE \A i \in Bad(r) :
-                       PrintT(<<"VERDICT", k + 1, IF r.obs[i].status # 0 THEN "status" ELSE "bytes", i>>)
+               /\ IF r.ok /\ r.ref # r.ref2 THEN PrintT(<<"VERDICT", k + 1, "reference", 0>>)
+                  ELSE \A i \in Bad(r) : PrintT(<<"VERDICT", k + 1, Verdict(r, r.obs[i]), i>>)
                /\ n' = n + Len(r.obs)
             /\ k' = k + 1
          \/ /\ k = Len(Recs) /\ PrintT(<<"CHECKED", k, n>>) /\ k' = k + 1 /\ UNCHANGED n
